@@ -117,6 +117,7 @@ type c29Run struct {
 	stopOnce  sync.Once
 	stopDone  chan struct{}
 	uniq      atomic.Int64
+	late      *c29Late
 	leaks     map[int]int // per kind: unsendable items that reached the appender (one witness per run)
 }
 
@@ -136,6 +137,20 @@ func (run *c29Run) toSend(it c29Item) ca.SendBatchItem {
 		item.Context = c29CancelledCtx
 	case c29Expired:
 		item.Deadline = time.Unix(1, 0)
+	}
+	if it.Late != 0 && run.late != nil {
+		run.late.mu.Lock()
+		if it.Late == 1 {
+			ctx, cancel := context.WithCancel(context.Background())
+			item.Context = ctx
+			run.late.cancels[id] = append(run.late.cancels[id], cancel)
+		} else {
+			item.Deadline = time.Now().Add(time.Duration(300+run.uniq.Add(1)%7*200) * time.Microsecond)
+			if cur, ok := run.late.deadlines[id]; !ok || item.Deadline.After(cur) {
+				run.late.deadlines[id] = item.Deadline
+			}
+		}
+		run.late.mu.Unlock()
 	}
 	return item
 }
@@ -225,7 +240,46 @@ func (p *c29Producer) genBatch(n int) *c29Batch {
 		}
 		b.Items = append(b.Items, p.genItem(c, b.Items, n, i))
 	}
+	if run.cfg.Mode == "router" && rng.IntN(100) < 30 {
+		p.markLate(b)
+	}
 	return b
+}
+
+// markLate chooses, per channel group of the batch with at least two items, a
+// proper subset of its fresh keyed items (first, middle, several - never the
+// whole group) that lose their context / deadline while the batch is routed.
+func (p *c29Producer) markLate(b *c29Batch) {
+	rng := p.rng
+	variant := 1 + rng.IntN(2)
+	groups := map[int][]int{}
+	keys := map[string]int{}
+	for _, it := range b.Items {
+		keys[it.Payload]++
+	}
+	for i, it := range b.Items {
+		groups[it.Ch] = append(groups[it.Ch], i)
+	}
+	for _, idxs := range groups {
+		if len(idxs) < 2 {
+			continue
+		}
+		marked := 0
+		for pos, i := range idxs {
+			it := b.Items[i]
+			if it.Kind != c29Normal || len(it.No) == 0 || it.No[0] != 'p' || keys[it.Payload] != 1 {
+				continue
+			}
+			if marked+1 >= len(idxs) { // never the whole group
+				break
+			}
+			want := pos == 0 && rng.IntN(2) == 0 || pos > 0 && pos < len(idxs)-1 && rng.IntN(2) == 0 || rng.IntN(6) == 0
+			if want {
+				b.Items[i].Late = variant
+				marked++
+			}
+		}
+	}
 }
 
 func (p *c29Producer) absorb(b *c29Batch) {
@@ -236,6 +290,7 @@ func (p *c29Producer) absorb(b *c29Batch) {
 		if it.Kind != c29Normal {
 			continue
 		}
+		it.Late = 0 // a retry is an ordinary send
 		if len(p.history[it.Ch]) < 64 {
 			p.history[it.Ch] = append(p.history[it.Ch], it)
 		} else {
@@ -468,8 +523,13 @@ func (run *c29Run) execute(rng *rand.Rand) {
 		return
 	}
 	if cfg.Mode == "router" {
-		run.rt = ca.NewRouter(ca.RouterOptions{LocalNodeID: 1, Resolver: &c29Resolver{node: 1, flaky: int64(17 + rng.IntN(40))}, Local: run.group,
-			RetryBackoff: 100 * time.Microsecond, MaxRouteAttempts: 3, MaxConcurrentGroupsPerBatch: 1 + rng.IntN(4)})
+		run.late = &c29Late{cancels: map[ca.ChannelID][]context.CancelFunc{}, deadlines: map[ca.ChannelID]time.Time{}}
+		ropts := ca.RouterOptions{LocalNodeID: 1, Resolver: &c29Resolver{node: 1, flaky: int64(17 + rng.IntN(40)), late: run.late}, Local: run.group,
+			RetryBackoff: 100 * time.Microsecond, MaxRouteAttempts: 3, MaxConcurrentGroupsPerBatch: 1 + rng.IntN(4)}
+		if rng.IntN(3) == 0 {
+			ropts.MaxConcurrentGroups = 1 + rng.IntN(3) // group-slot backpressure: deadlines pass while waiting for a slot
+		}
+		run.rt = ca.NewRouter(ropts)
 	}
 
 	// Phase 1: concurrent producers under faults.
@@ -562,6 +622,7 @@ func (run *c29Run) phase2(rng *rand.Rand) {
 			if it.Kind != c29Normal {
 				continue
 			}
+			it.Late = 0
 			k := fmt.Sprintf("%d|%s", it.Ch, it.Payload)
 			if _, ok := seen[k]; ok {
 				continue
@@ -744,6 +805,9 @@ func (run *c29Run) judge(stopped bool) {
 			res := b.Res[i]
 			r.Eval(1)
 			r.Count("result."+c29KindNames[it.Kind]+"."+c29ErrClass(res), 1)
+			if it.Late != 0 {
+				r.Count(fmt.Sprintf("router_late.variant%d.%s", it.Late, c29ErrClass(res)), 1)
+			}
 			run.judgeItem(b, i, it, res, logs, keyIdx, seen)
 		}
 		for _, n := range inBatchKeys {
@@ -884,6 +948,9 @@ func (run *c29Run) judge(stopped bool) {
 		if len(producersWithRecords[c]) >= 2 {
 			multi++
 		}
+	}
+	if run.late != nil {
+		r.Count("router_late.cancels_or_deadlines_fired_during_lookup", int(run.late.fired.Load()))
 	}
 	r.Count("runs.finished", 1)
 	if stopped {
